@@ -200,14 +200,21 @@ CrashEquiv(e) ==
 
 \* F17 seen through this relation: when a plan edit moves a step between plans, whether the build
 \* fails depends on the schedule (see StaleDefinerConflict), not on watching versus restarting
+\* A build that stops dispatching at the first failure (no keep-going) has executed whichever independent
+\* steps the schedule happened to start before: which outputs exist then depends on that build's
+\* schedule, not on watching versus restarting.  Graph and tree are compared when both builds are
+\* successful or run to the end (keep-going); otherwise the return codes.
+WatchComparable(e) == (Success(e.a.rc) /\ Success(e.b.rc)) \/ e.info.keep_going
 WatchDiff(e) ==
   (IF e.a.rc # e.b.rc THEN {<<"return_code_differs", <<e.a.rc, e.b.rc>>>>} ELSE {})
   \* in an incomplete build, what a PENDING step amended before the build stopped (and whether it ran at
   \* all) depends on the schedule of that build, not on watching versus restarting
-  \cup {c \in CanonDiff(e.a.state, e.a.disk, e.b.state, e.b.disk) :
-          ~(c[1] = "dynamic_memory_of_pending_step_differs" /\ ~Success(e.a.rc) /\ ~Success(e.b.rc))}
-  \cup {<<"disk_differs", p>> : p \in {p \in (DOMAIN e.a.disk.files) \cup (DOMAIN e.b.disk.files) :
-            DiskContent(e.a.disk, p) # DiskContent(e.b.disk, p)}}
+  \cup (IF WatchComparable(e)
+        THEN {c \in CanonDiff(e.a.state, e.a.disk, e.b.state, e.b.disk) :
+                ~(c[1] = "dynamic_memory_of_pending_step_differs" /\ ~Success(e.a.rc) /\ ~Success(e.b.rc))}
+             \cup {<<"disk_differs", p>> : p \in {p \in (DOMAIN e.a.disk.files) \cup (DOMAIN e.b.disk.files) :
+                      DiskContent(e.a.disk, p) # DiskContent(e.b.disk, p)}}
+        ELSE {})
 WatchEqRestart(e) ==
   IF (RcClass(e.a.rc) = "failed" /\ StaleDefinerConflict(e.a)) \/ (RcClass(e.b.rc) = "failed" /\ StaleDefinerConflict(e.b))
   THEN {<<c[1], c[2], "F17-step-moved-between-plans-watch-vs-restart">> : c \in WatchDiff(e)}
